@@ -98,8 +98,8 @@ def run(rep):
     for r in recs[:2]:
         rep.sample(dict(source=mp.render(progs[r['pid'] - 1])[0], decisions=r['dec'], predicted_events=r['ulog']))
     rep.assume('executions on which the converted function already diverges from the prediction are judged by C01, not here')
-    rep.assume('contexts covered so far: loop/branch/try/except/finally/with bodies, nested defs, operands of other overloaded expressions; '
-               'lambda bodies, comprehension elements, decorators and default values are not generated yet')
+    rep.assume('contexts generated: loop/branch/try/except/finally/with bodies, nested defs, operands of other overloaded expressions, '
+               'lambda bodies (called in place / stored), comprehension elements and conditions, decorators and default values of nested defs')
     common.rmtree(wd2)
 
 
